@@ -44,7 +44,7 @@ def run(ctx):
                                          ("NIterEndPlain", "IIterEndPlain")])
     # deep random walks of the algorithm (refinement + structural invariants checked on every step)
     r = ctx.mc("TimersImplMC", "TimersImplMC.sim.cfg", workers=2, coverage=False, label="simulate",
-               args=["-simulate", "num=%d" % ctx.pick(300, 60000), "-depth", "70", "-seed", str(ctx.seed)])
+               args=["-simulate", "num=%d" % ctx.pick(250, 60000), "-depth", "70", "-seed", str(ctx.seed)])
     if not r.ok:
         raise MachineryError("TimersImpl deep simulation: refinement of TimersAbs fails: %s\n%s" % (r.error, "".join(r.cex[-3:])[:3000]))
     A.run_flavour(ctx, "reactor", "ReactorBase timed calls")
